@@ -268,7 +268,9 @@ var MaxExtensions = 45
 func (x *Session) hangOrBusy(what string, ext *int) *Hang {
 	d := Dump()
 	gs := Parse(d)
-	if *ext < MaxExtensions && Busy(gs, x.handlerGID.Load(), CurGID()) {
+	// (a goroutine of the watched call may also be waiting for a lock whose holder - any
+	// goroutine with a gribigo frame, e.g. inside a library it calls - is merely slow)
+	if *ext < MaxExtensions && (Busy(gs, x.handlerGID.Load(), CurGID()) || AnyBusyInGribigo(gs)) {
 		*ext++
 		return nil
 	}
@@ -542,7 +544,7 @@ func Watch(what string, f func()) *Hang {
 		case <-t.C:
 			d := Dump()
 			gs := Parse(d)
-			if ext < MaxExtensions && Busy(gs, gid.Load()) {
+			if ext < MaxExtensions && (Busy(gs, gid.Load()) || AnyBusyInGribigo(gs)) {
 				t.Reset(Watchdog)
 				continue
 			}
